@@ -252,7 +252,7 @@ def variant_model(v, seed):
     fv = dict(family.BASE, aux="one")
     src, states, choices, funcs, P, shocks = family.make_source(fv)
     if v == "A-loggrid":
-        states = [(n, g.replace("Lin(1, 5, 5)", "Log(1, 5, 5)")) for n, g in states]
+        states = [(n, g.replace("Lin(1, 5, 5)", "Log(1, 5, 5)")  # same name, bounds and size as the linear grid of variant A) for n, g in states]
         src = src.replace("return (w - c) + 1.0 + 0.25 * d + 0.1 * inc", "return jnp.clip((w - c) + 1.0 + 0.25 * d + 0.1 * inc, 1.0, 5.0)")
     elif v == "A-coef":
         src = src.replace("0.31 * d * (s + 1)", "0.47 * d * (s + 1)")
